@@ -37,22 +37,27 @@ def stoich(model):
     return rows
 
 
-def flux_problems(model, v, tol=FEAS_TOL, bounds=None, only=None):
-    """steady state and bounds of a complete flux dict against the Python objects -> list of strings"""
+def flux_problems(model, v, tol=FEAS_TOL, bounds=None, only=None, rows=None):
+    """steady state and bounds of a complete flux dict against the Python objects -> list of strings.
+    bounds / rows: a captured state ({rid: (lb, ub)}, stoich(model)) instead of the live model"""
     out = []
     scale = max([1.0] + [abs(x) for x in v.values() if not math.isnan(x)])
     for x in v.values():
         if math.isnan(x):
             return ["flux vector contains NaN"]
-    for mid, row in stoich(model).items():
+    if bounds is None:
+        bounds = {r.id: (r.lower_bound, r.upper_bound) for r in model.reactions}
+    missing = sorted(set(bounds) - set(v))
+    if missing or set(v) - set(bounds):
+        return [f"fluxes reported for {sorted(v)} but the model's reactions are {sorted(bounds)}"]
+    for mid, row in (stoich(model) if rows is None else rows).items():
         s = sum(c * v[rid] for rid, c in row.items())
         if abs(s) > tol * scale:
             out.append(f"steady state violated at {mid}: S.v = {s:g}")
-    for r in model.reactions:
-        lb, ub = (r.lower_bound, r.upper_bound) if bounds is None else bounds[r.id]
-        if v[r.id] < lb - tol * max(1.0, abs(lb) if not math.isinf(lb) else 1.0) or \
-                v[r.id] > ub + tol * max(1.0, abs(ub) if not math.isinf(ub) else 1.0):
-            out.append(f"flux of {r.id} = {v[r.id]!r} outside [{lb}, {ub}]")
+    for rid, (lb, ub) in bounds.items():
+        if v[rid] < lb - tol * max(1.0, abs(lb) if not math.isinf(lb) else 1.0) or \
+                v[rid] > ub + tol * max(1.0, abs(ub) if not math.isinf(ub) else 1.0):
+            out.append(f"flux of {rid} = {v[rid]!r} outside [{lb}, {ub}]")
     return out[:4]
 
 
@@ -210,11 +215,15 @@ def assemble(cases, results, rule, bounds, exhaustive=False, per_key=3, t0=None)
         if res.get("sample") is not None and len(samples) < 3 and res.get("nontrivial"):
             samples.append(jsonable(res["sample"]))
         for f in res.get("failures", ()):
-            by_key.setdefault(f["key"], []).append({"key": f["key"], "failure": f["failure"],
-                                                    "replay": f.get("replay", case)})
+            rec = {"key": f["key"], "failure": f["failure"], "replay": f.get("replay", case)}
+            if f.get("witness") is not None:
+                rec["witness"] = f["witness"]       # fixed, seed-independent case: stable id, never capped
+            by_key.setdefault(f["key"], []).append(rec)
     counts = {k: len(v) for k, v in by_key.items()}
     for k in sorted(by_key):
-        ws = sorted(by_key[k], key=lambda f: len(json.dumps(f["replay"], default=str)))
+        fixed = sorted((f for f in by_key[k] if "witness" in f), key=lambda f: f["witness"])
+        ws = sorted((f for f in by_key[k] if "witness" not in f), key=lambda f: len(json.dumps(f["replay"], default=str)))
+        failures.extend(fixed)
         failures.extend(ws[:per_key])
     out = {
         "evaluations": evaluations,
@@ -225,6 +234,8 @@ def assemble(cases, results, rule, bounds, exhaustive=False, per_key=3, t0=None)
         "samples": samples,
         "failures": failures,
         "failure_counts": counts,
+        "witnesses": {k: sorted(f["witness"] for f in v if "witness" in f) for k, v in by_key.items()
+                      if any("witness" in f for f in v)},
         "checker_errors": errors[:5],
         "n_checker_errors": len(errors),
         "dropped_for_time": dropped,
